@@ -4,7 +4,34 @@
 
 package l4postgres
 
+// Postgres startup (protocol 3.0 "Message Formats"): Int32 length (counts itself), then either the
+// SSLRequest code 80877103 or Int32 protocol version followed by NUL-terminated key/value pairs.
+// be32 is the big-endian 32-bit integer at the start of a byte view.
+//@ ghostfn pglen(cx *layer4.Connection) uint32 = uint32(cx.buf[cx.offset])<<24 | uint32(cx.buf[cx.offset+1])<<16 | uint32(cx.buf[cx.offset+2])<<8 | uint32(cx.buf[cx.offset+3])
+//@ ghostfn pgcode(cx *layer4.Connection) uint32 = uint32(cx.buf[cx.offset+4])<<24 | uint32(cx.buf[cx.offset+5])<<16 | uint32(cx.buf[cx.offset+6])<<8 | uint32(cx.buf[cx.offset+7])
+
+//@ func (b *message) ReadString() (r string)
+//@ requires b != nil && len(b.data) <= 10000 && b.offset <= uint32(len(b.data)) + 1
+//@ safety C04
+//@ assigns[C06] b.offset
+//@ invariant end >= b.offset && end <= maximum && maximum == uint32(len(b.data))
+//@ invariant forall t int :: int(b.offset) <= t && t < int(end) ==> b.data[t] != 0
+//@ ensures[C14] (len(r) == 0) == (old(b.offset) >= uint32(len(b.data)) || b.data[old(b.offset)] == 0)
+//@ ensures[C14] b.offset <= uint32(len(b.data)) + 1 && (b.offset >= old(b.offset) || b.offset == uint32(len(b.data)))
+//@ ensures[C14] len(r) > 0 ==> b.offset > old(b.offset)
+
 //@ func (m *MatchPostgres) Match(cx *layer4.Connection) (matched bool, err error)
 //@ requires wfm(cx)
 //@ safety C04
 //@ implements[C06] (m github.com/mholt/caddy-l4/layer4.ConnMatcher) Match
+//@ invariant b != nil && len(b.data) <= 10000 && b.offset <= uint32(len(b.data)) + 1 && b.offset >= 4 && len(b.data) >= 4
+//@ invariant (len(startup.Parameters) == 0 && b.offset == 4) || len(startup.Parameters) > 0
+//@ invariant len(startup.Parameters) > 0 ==> len(b.data) > 4 && b.data[4] != 0
+//@ invariant startup != nil && startup.Parameters != nil
+//@ ensures[C06] err != nil ==> !matched
+//@ ensures[C06] old(avail(cx)) < 4 ==> err == layer4.ErrConsumedAllPrefetchedBytes
+//@ ensures[C06] old(avail(cx)) >= 4 && (old(pglen(cx)) < 8 || old(pglen(cx)) > 10000) ==> err == nil && !matched
+//@ ensures[C06] old(avail(cx)) >= 4 && old(pglen(cx)) >= 8 && old(pglen(cx)) <= 10000 ==> ((err == layer4.ErrConsumedAllPrefetchedBytes) == (old(avail(cx)) < int(old(pglen(cx)))))
+//@ ensures[C14] err == nil && old(avail(cx)) >= 8 && old(pglen(cx)) >= 8 && old(pglen(cx)) <= 10000 && old(pgcode(cx)) == 80877103 ==> matched
+//@ ensures[C14] old(avail(cx)) >= 8 && old(pglen(cx)) >= 8 && old(pglen(cx)) <= 10000 && old(avail(cx)) >= int(old(pglen(cx))) && old(pgcode(cx)) != 80877103 && old(pgcode(cx))>>16 < 3 ==> !matched && err != nil
+//@ ensures[C14] err == nil && old(avail(cx)) >= 8 && old(pglen(cx)) >= 8 && old(pglen(cx)) <= 10000 && old(pgcode(cx)) != 80877103 ==> matched == (old(pglen(cx)) > 8 && old(cx.buf[cx.offset+8]) != 0)
